@@ -742,13 +742,7 @@ Proof.
   destruct (in_closed (ec_bounds c) p); inversion Hsim as [[H0 H1]]; symmetry; exact H1.
 Qed.
 
-(* the growth rule against the constants extracted from the source (Generated.Tables) *)
-Lemma growth_spec n :
-  growth n = Nat.max ((2 * n + 5) / 10) (Z.to_nat (snd (fst gen_cont_exp_growth))) /\ (1 <= growth n)%nat.
-Proof.
-  assert (Z.to_nat (snd (fst gen_cont_exp_growth)) = 1%nat) as -> by (vm_compute; reflexivity).
-  unfold growth. split; [reflexivity|]. apply Nat.le_max_r.
-Qed.
+
 
 (* ---------------------------------------------------------------- end to end: answers in terms of the history *)
 Lemma In_aget {V : Type} (m : list (Z * V)) a v : NoDup (akeys m) -> (In (a, v) m <-> aget a m = Some v).
